@@ -46,7 +46,54 @@ TEMPLATES = [
     ("with-x", "(%l (with-x g w (w (g))) (with-x g w (%l (g) (w (g)) (w (w (g))))) U1 U2)", "1", "2", "(outer-x (outer-x outer-x outer-x) 1 2)"),
     ("collector", "(%l (collect (U1 U2 U1) () ()) U2)", "1", "2", "((1 2 1) 2)"),
     ("else-lit-er", "(%l (else-lit-er else) (else-lit-er U1))", "1", "2", "(is-else not-else)"),
+    # syntax-rules defined where the user's variables are visible, with compound ellipsis templates: the code the expander generates
+    # for them (its own map/append/cons... calls) must not be captured by a user variable of that name
+    ("let-syntax-ellipsis", "(let-syntax ((pairs (syntax-rules () ((_ (p q) ...) (%l (%l q p) ... U2))))) (pairs (1 U1) (3 4)))", "7", "2", "((7 1) (4 3) 2)"),
+    ("let-syntax-ellipsis2", "(let-syntax ((rows (syntax-rules () ((_ (p q ...) ...) (%l (%l p (%l q ...)) ... U2))))) (rows (1 U1 5) (3)))", "7", "2", "((1 (7 5)) (3 ()) 2)"),
+    ("letrec-syntax-ellipsis", "(letrec-syntax ((alist (syntax-rules () ((_ (p q) ... last) (%l (%l 'p q) ... 'last U2))))) (alist (k1 U1) (k2 9) end))", "7", "2", "((k1 7) (k2 9) end 2)"),
+    ("let-syntax-vector-ellipsis", "(let-syntax ((vec (syntax-rules () ((_ #(p q) ...) (%l (%l q p) ... U2))))) (vec #(1 U1) #(3 4)))", "7", "2", "((7 1) (4 3) 2)"),
 ]
+
+# Forward references: a macro whose template mentions a global that is only defined AFTER the use site has been compiled.  The
+# inserted identifier must still denote that (future) global, not a local variable of the macro user with the same name.
+# (kind, definition of the macro with HELPER standing for the inserted identifier)
+FORWARD_MACROS = [
+    ("sr", "(define-syntax MAC (syntax-rules () ((_ x) (HELPER x))))"),
+    ("er", "(define-syntax MAC (er-macro-transformer (lambda (form rename compare) (list (rename 'HELPER) (cadr form)))))"),
+    ("sc", "(define-syntax MAC (sc-macro-transformer (lambda (form env) (list 'HELPER (make-syntactic-closure env '() (cadr form))))))"),
+    ("sr-value", "(define-syntax MAC (syntax-rules () ((_ x) (%l HELPER x))))"),
+]
+FORWARD_SITES = [("params", "(define (USER U1 U2) BODY)"), ("let", "(define (USER a1 a2) (let ((U1 a1) (U2 a2)) BODY))"),
+                 ("inner-lambda", "(define (USER a1 a2) ((lambda (U1) ((lambda (U2) BODY) a2)) a1))")]
+
+
+def gen_forward(i):
+    n = 0
+    for kind, mdef in FORWARD_MACROS:
+        for sname, site in FORWARD_SITES:
+            for var, target in [(None, None), (1, "HELPER"), (2, "HELPER"), (1, "zz1"), (2, "x"), (1, "list"), (2, "MAC")]:
+                n += 1
+                mac, helper, user = "fwd-mac-%d" % n, "fwd-helper-%d" % n, "fwd-user-%d" % n
+                n1, n2 = "u1", "u2"
+                t = {"HELPER": helper, "MAC": mac}.get(target, target)
+                if var == 1:
+                    n1 = t
+                elif var == 2:
+                    n2 = t
+                if var and target == "MAC":
+                    continue       # a local named like the keyword would shadow the keyword in the body: not a renaming of user code only
+                body = "(%%l (%s U1) U2)" % mac
+                top = mdef.replace("MAC", mac).replace("HELPER", helper) + "\n"
+                top += site.replace("USER", user).replace("BODY", body).replace("U1", n1).replace("U2", n2) + "\n"
+                if kind == "sr-value":
+                    top += "(define %s 'fv)\n" % helper
+                    want = "((fv 1) 2)"
+                else:
+                    top += "(define (%s x) (%%l 'fh x))\n" % helper
+                    want = "((fh 1) 2)"
+                yield (i, "forward-" + kind, sname, var, t, "(%s 1 2)" % user, want, top)
+                i += 1
+
 
 SITES = {
     "let": "(let ((U1 I1) (U2 I2)) BODY)",
@@ -111,13 +158,15 @@ def gen():
                 if allowed(tmpl, site, t1, t2) and allowed(tmpl, site, t2, t1):
                     yield (i, tmpl[0], site, 3, t1 + "," + t2, instantiate(tmpl, site, t1, t2), tmpl[4])
                     i += 1
+    for p in gen_forward(i):
+        yield p
 
 
 def run_job(arg):
     jobno, progs = arg
     d = common.scratch_dir("c07")
     path = os.path.join(d, "job.scm")
-    common.write_file(path, "".join("(run-case %d (lambda () %s))\n" % (p[0], p[5]) for p in progs))
+    common.write_file(path, "".join((p[7] if len(p) > 7 else "") + "(run-case %d (lambda () %s))\n" % (p[0], p[5]) for p in progs))
     r = common.evalbatch("opt", [path], preludes=[PRE], timeout=600, cwd=d)
     got = common.parse_tagged(r.out)
     excs = [l for l in r.out.split("\n") if l.startswith(";;EXC") or l.startswith(";;READ-EXC")]
@@ -150,12 +199,14 @@ def main(tier):
         for jobno, n, bad, excs, crashed, tail in pool.imap_unordered(run_job, jobs):
             chk.count(n, outcome="same")
             for p, g in bad:
-                i, tname, site, var, target, text, want = p
+                i, tname, site, var, target, text, want = p[:7]
+                if len(p) > 7:
+                    text = p[7] + text
                 chk.count(0, outcome="differs")
                 chk.violation({"op": "%s:%s" % (tname, target), "template": tname, "site": site, "var": var, "target": target, "got": g, "want": want},
                               "macro %s at a %s site, variable %s renamed to %s: printed %r, expected %r :: %s" % (
                                   tname, site, var, target, g, want, text[:300]),
-                              open(PRE).read() + "\n(run-case 0 (lambda () %s))\n" % text)
+                              open(PRE).read() + "\n" + (p[7] if len(p) > 7 else "") + "(run-case 0 (lambda () %s))\n" % p[5])
             if crashed:
                 chk.violation({"op": "crash", "job": jobno}, "batch %d crashed: %s %s" % (jobno, excs, tail))
     chk.nontrivial_n += sum(1 for p in progs if p[3] is not None and p[4] not in FRESH)
